@@ -18,8 +18,10 @@ part of the same parameter: it is the `pyRaises` flag a `printf` statement carri
 
 What *is* modelled of CPython is `string.Formatter().parse` (`parseFormat` below: a
 re-implementation of `MarkupIterator_next`/`parse_field` of `Objects/stringlib/
-unicode_format.h`), because the compiler counts fields with it and the VM finds the named
-fields with it.  It is compared with the real `Formatter().parse` on every run.
+unicode_format.h`) and the first part of a field name (`formatter_field_name_split`), because
+the compiler counts fields with them and the VM finds the named fields with them — including the
+fields nested one level inside a format spec (`fieldHeads`).  Both are compared with the real
+functions on every run.
 -/
 namespace Bardolph.Out
 open Bardolph.Generated.Output
@@ -138,24 +140,76 @@ def parseChars (cs : List Char) : Option (List Field) := scan (.lit []) cs
 
 def parseFormat (s : String) : Option (List Field) := parseChars s.toList
 
-/-- `str.isdecimal()` on ASCII -/
-def isDecimal (n : List Char) : Bool := !n.isEmpty && n.all Char.isDigit
+/-! ### the replacement fields `printf` works with (`bardolph/lib/format_fields.py: field_names`)
 
-/-- `field[1] is not None and (len(field[1]) == 0 or field[1].isdecimal())` (io_parser.printf) -/
-def Field.positional (f : Field) : Bool :=
-  match f.name with
-  | some n => n.isEmpty || isDecimal n
-  | none => false
+For every tuple with a field name: the FIRST PART of the name (`formatter_field_name_split(name)[0]`:
+the text before the first `.` or `[` — an `int` if it is all digits, `''` if it is empty, else a
+`str`), then the same for the fields nested one level inside its format spec (`str.format` allows
+exactly one level; the spec is parsed by the same `Formatter().parse`).  Positional = empty or a
+number: the compiler reads one value per positional field, the VM looks the others up by name. -/
 
-/-- `name is not None and len(name) > 0 and not name.isdecimal()` (VmIo._printf) -/
-def Field.named (f : Field) : Option String :=
-  match f.name with
-  | some n => if n.isEmpty || isDecimal n then none else some (String.ofList n)
-  | none => none
+/-- the first part of a field name -/
+def firstPart (n : List Char) : List Char := n.takeWhile fun c => c != '.' && c != '['
 
-def countPositional (fs : List Field) : Nat := (fs.filter Field.positional).length
+/-- value of a string of ASCII digits -/
+def digitsVal (cs : List Char) : Nat := cs.foldl (fun acc c => acc * 10 + (c.toNat - 48)) 0
 
-def namedNames (fs : List Field) : List String := fs.filterMap Field.named
+/-- `PY_SSIZE_T_MAX`: a numbered field beyond it is a `ValueError` ("Too many decimal digits") -/
+def maxIndex : Nat := 9223372036854775807
+
+inductive Head
+  /-- auto-numbered (`{}`, `{.real}`) or numbered (`{0}`, `{0.real}`, `{1[2]}`) -/
+  | pos
+  /-- named: `{x}`, `{x.real}`, `{s[0]}` are all the name `x` / `s` -/
+  | named (n : String)
+  deriving Repr, DecidableEq
+
+/-- `formatter_field_name_split(name)[0]` as far as `printf` looks at it; `none` = `ValueError` -/
+def headOf (n : List Char) : Option Head :=
+  let p := firstPart n
+  if p.isEmpty then some .pos
+  else if p.all Char.isDigit then (if digitsVal p ≤ maxIndex then some .pos else none)
+  else some (.named (String.ofList p))
+
+/-- the heads of the fields among these tuples (not looking into their specs) -/
+def flatHeads : List Field → Option (List Head)
+  | [] => some []
+  | f :: fs =>
+    match f.name with
+    | none => flatHeads fs
+    | some n =>
+      match headOf n, flatHeads fs with
+      | some h, some hs => some (h :: hs)
+      | _, _ => none
+
+/-- the heads of all replacement fields, in the order `str.format` takes them: a field's own,
+then those nested in its spec -/
+def headsOf : List Field → Option (List Head)
+  | [] => some []
+  | f :: fs =>
+    match f.name with
+    | none => headsOf fs
+    | some n =>
+      match headOf n, (parseChars f.spec).bind flatHeads, headsOf fs with
+      | some h, some inner, some hs => some (h :: inner ++ hs)
+      | _, _, _ => none
+
+/-- `list(field_names(s))`, `none` = `ValueError` -/
+def fieldHeads (cs : List Char) : Option (List Head) := (parseChars cs).bind headsOf
+
+def Head.isPos : Head → Bool
+  | .pos => true
+  | .named _ => false
+
+def Head.name? : Head → Option String
+  | .pos => none
+  | .named n => some n
+
+/-- `name == '' or isinstance(name, int)` counted (io_parser.printf, VmIo._printf) -/
+def countPositional (hs : List Head) : Nat := (hs.filter Head.isPos).length
+
+/-- the names the VM looks up -/
+def namedNames (hs : List Head) : List String := hs.filterMap Head.name?
 
 /-- `format_str.replace('\\n', '\n')`: every backslash-n pair, left to right -/
 def unescape : List Char → List Char
@@ -221,13 +275,13 @@ def lookupAll (e : Env) : List String → Option (List (String × Value))
 `none` = the VM faults (format rejected by the parser, or a lookup raises). -/
 def fillNamed (e : Env) (f : String) : Option (String × List (String × Value)) :=
   let f' := unescape f.toList
-  match parseChars f' with
+  match fieldHeads f' with
   | none => none
-  | some fs => (lookupAll e (namedNames fs)).map fun named => (String.ofList f', named)
+  | some hs => (lookupAll e (namedNames hs)).map fun named => (String.ofList f', named)
 
 /-- how many of the accumulated values an `OUT PRINTF` takes: the anonymous and numbered fields
 of the (unescaped) format, counted as the compiler counts them -/
-def vmCount (f : String) : Option Nat := (parseChars (unescape f.toList)).map countPositional
+def vmCount (f : String) : Option Nat := (fieldHeads (unescape f.toList)).map countPositional
 
 /-! ## Statements and what `io_parser` makes of them -/
 
@@ -305,7 +359,7 @@ def parseGo : Option (String × List Operand × Nat) → List Item → Option (L
   | none, .kwPrintln :: r => (parseGo none r).map (.println none :: ·)
   | none, .kwPrintf f :: r =>
     if f = "" then none
-    else match parseFormat f with
+    else match fieldHeads f.toList with
       | none => none
       | some fs =>
         match countPositional fs with
